@@ -1,13 +1,18 @@
 CONSTANTS
   SectorSize = 4
   TableSize = 4
+  HetSize = 8
   FlagFix = TRUE
+  UseHetBet = TRUE
+  BetFix = FALSE
   NameHash <- MCNameHash
   LibFileKey <- MCFileKey
+  Het8 <- MCHet8
+  BetL3 <- MCBetL3
+  BetOaat <- MCBetOaat
 INIT MCInit
 NEXT MCNextOnce
 INVARIANT LayoutAgreement
-INVARIANT FixRemovesDeviation
 INVARIANT ShortcutUnreachable
 INVARIANT SectorTestSound
 INVARIANT StoredBound
@@ -17,4 +22,8 @@ INVARIANT KeyAgreement
 INVARIANT ReadBack
 INVARIANT ReadBackNeverNotFound
 INVARIANT AbsentNotFound
+INVARIANT HetBetAnswersOwn
+INVARIANT BetFixAnswers
+INVARIANT AsIsAlwaysFallsBack
+INVARIANT FixRemovesDeviation
 CHECK_DEADLOCK FALSE
